@@ -817,6 +817,14 @@ class Machine:
     def i_fldl(self, s, ops): self._fld(s, ops, 64)
     def i_fldt(self, s, ops): self._fld(s, ops, 80)
 
+    def i_fld(self, s, ops):
+        if ops and ops[0][0] == 'st':
+            if len(s.st) <= ops[0][1]:
+                raise Unknown('fld %st(i) beyond the abstract x87 stack')
+            s.st.append(s.st[-1 - ops[0][1]])
+            return
+        raise Unknown('fld operand')
+
     def i_fldz(self, s, ops):
         s.st.append(('fconst', 80, 0))
 
